@@ -18,6 +18,10 @@ TRUSTED = [
 ]
 
 
+class SamplerDoesNotTerminate(Exception):
+    pass
+
+
 @contextlib.contextmanager
 def record_draws(log):
     rp, ri = torch.randperm, torch.randint
@@ -30,6 +34,9 @@ def record_draws(log):
     def randint(low, high, size, *a, **kw):
         r = ri(low, high, size, *a, **kw)
         log.append(("randint", int(low), int(high), r.tolist()))
+        if len(log) > 200000:
+            # a sampler that draws by rejection never ends when it is asked for more distinct values than exist
+            raise SamplerDoesNotTerminate(f"{len(log)} batches drawn below {int(high)}")
         return r
     torch.randperm, torch.randint = randperm, randint
     try:
@@ -172,6 +179,11 @@ def conv_cases(ck):
         try:
             with record_draws(log):
                 l = (LogicConv2d if dims == 2 else LogicConv3d)(**kw)
+        except SamplerDoesNotTerminate as e:
+            ck.case(dict(case, rejected=False), kind=f"conv{dims}d-unique")
+            ck.disagree("conv 'random-unique' accepted more pairs than exist (and its sampler draws for ever)", dict(case, observed=str(e)),
+                        signature={"scheme": "conv", "what": "accepts"})
+            continue
         except ValueError:
             ck.case(dict(case, rejected=True), kind="conv-unique-rejected")
             if s <= P * (P - 1) // 2:
